@@ -1,6 +1,7 @@
 package proc
 
 import (
+	"database/sql"
 	"encoding/json"
 	"fmt"
 	"os"
@@ -147,6 +148,25 @@ func TestC06b(t *testing.T) {
 			}
 			if _, err := os.Stat(srv.DB); err != nil {
 				fail("the database file is gone after the process ended by %s: %v", how, err)
+			}
+			// now and then the first start attempt meets a database another process still holds (the old server not quite
+			// dead, a second server on the same file, an operator's session): that attempt may fail, the data may not
+			if rapid.IntRange(0, 3).Draw(rt, "lockedStart") == 0 {
+				if db, err := sql.Open("sqlite3", "file:"+srv.DB+"?_busy_timeout=100&_txlock=immediate"); err == nil {
+					if tx, err := db.Begin(); err == nil {
+						_, _ = tx.Exec("CREATE TABLE IF NOT EXISTS verif_lock_holder (x INTEGER)")
+						errStart := srv.start() // one attempt, no retry
+						if errStart == nil {
+							srv.Kill() // it came up all the same (it did not need the write lock yet): fine
+						}
+						_ = tx.Rollback()
+						stats.Class(fmt.Sprintf("start-attempt-on-locked-database:failed=%v", errStart != nil))
+					}
+					db.Close()
+				}
+				if _, err := os.Stat(srv.DB); err != nil {
+					fail("the database file is gone after a start attempt on the locked database: %v", err)
+				}
 			}
 			if err := srv.Start(); err != nil {
 				fail("restart on the same database after %s failed: %v", how, err)
